@@ -14,7 +14,7 @@ RULE = ("Inputs of 2..99 sequences (related family or unrelated) in which one or
         "EQZ, AST, NDB, FY, C, G, H, P, W, X); cases failing it are discarded and counted. Oracle: all copies of a sequence have "
         "byte-identical rows. Non-trivial = >= 3 distinct sequences and the copies' rows contain a gap.")
 ASSUMPTIONS = ["premise evaluated on the first 1024 symbols of the pattern, as the distance kernel does"]
-BUDGET = {"quick": dict(examples=150, workers=12, seconds=75), "thorough": dict(examples=1200, workers=16, seconds=600)}
+BUDGET = {"quick": dict(examples=400, workers=12, seconds=75), "thorough": dict(examples=1200, workers=16, seconds=600)}
 
 _PROT_CLASS = {}
 for grp in ["LM", "IV", "KR", "EQZ", "AST", "NDB", "FY", "C", "G", "H", "P", "W"]:
